@@ -2,6 +2,7 @@
 package c04
 
 import (
+	"os"
 	"bytes"
 	"context"
 	"fmt"
@@ -809,7 +810,7 @@ func (a *adversary) SyncIterate(_ context.Context, r *syncer.IterateRequest) (*s
 }
 
 const ruleRemote = "case = committed tree + a reader created with only the trusted root (mkvs.NewWithRoot(peer, nil, root, Capacity(generated incl. tiny))) reading through an adversarial ReadSyncer that per call is honest, returns an error, " +
-	"returns a mutated proof, returns an answer taken from a tree differing in one key/value (optionally relabelled with the trusted root), or returns a VALID root-anchored proof that answers another question (replayed response for a decoy key), following a generated script; reader operations: Get, iterator Seek+Next, full scan, PrefetchPrefixes; " +
+	"returns a mutated proof, returns an answer taken from a tree differing in one key/value (optionally relabelled with the trusted root), or returns a VALID root-anchored proof that answers another question (replayed response for a decoy key), following a generated script; reader operations: Get, iterator Seek+Next, full scan, PrefetchPrefixes, and LOCAL Insert/Remove on the reader (keys that split compressed labels, extend or collapse nodes above subtrees not fetched yet; the truth is then the replica's contents with the same writes applied, a failed write ends the case); " +
 	"oracle: every operation returns the full replica's answer or an error - never a wrong value, a wrong absence, or a wrong/short iteration without error; after the script is exhausted (peer honest) every key reads correctly (no poisoned cache). " +
 	"non-trivial = script with >=1 corrupt response that was actually consumed, followed by >=1 honest one; distinct = hash of contents, script and operations"
 
@@ -849,21 +850,33 @@ func TestC04RemoteReader(t *testing.T) {
 		// excluded the reader's node capacity is unbounded or at least the number of keys (an upper bound on the
 		// number of internal nodes), so no internal node is ever evicted; leaf eviction (value capacity) is
 		// still generated freely.
-		safe := len(m) + 1
+		safe := len(m) + 12 // up to 10 local inserts may add internal nodes
 		ncaps := []int{0, safe, safe + 5}
 		if !ev.Excluded(kv.SigNodeCapBelowPath) {
 			ncaps = append(ncaps, 1, 2, 3, 5, kv.MaxPathDepth(uni)+3)
 		}
 		ncap := uint64(rapid.SampledFrom(ncaps).Draw(t, "ncap"))
 		vcap := uint64(rapid.SampledFrom([]int{0, 1, 100, 400, 1 << 20}).Draw(t, "vcap"))
+		// Local writes under value-cache pressure hit known finding cache-leaf-evicted-under-dirty-internal (probe
+		// TestC04KFRemoteLeafEviction): while it is excluded, readers with a small value capacity stay read-only.
+		mayWrite := vcap == 0 || vcap >= 1<<20 || !ev.Excluded(kv.SigLeafEvictedDirty)
 		reader := mkvs.NewWithRoot(adv, nil, f.root, mkvs.Capacity(ncap, vcap))
 		defer reader.Close()
 		trace = append(trace, fmt.Sprintf("keys=%d script=%v cap=%d/%d", len(m), adv.script, ncap, vcap))
+		if os.Getenv("VERIF_DEBUG_CONTENTS") != "" {
+			for _, k := range m.SortedKeys() {
+				trace = append(trace, fmt.Sprintf("  content %x = %d bytes", k, len(m[k])))
+			}
+		}
 		fail := func(sig, format string, args ...any) {
 			ev.Violation(t, sig, "%s; trace=%v", fmt.Sprintf(format, args...), trace)
 		}
+		// Local writes on the remote-backed reader (how a runtime works on top of a remote state root): from the first
+		// write on, the truth is the full replica's contents with the same writes applied (m is this case's private copy).
+		m = m.Clone()
 		keys := m.SortedKeys()
 		errs := 0
+		wrote := false
 		doGet := func(k []byte) {
 			v, err := reader.Get(ctx, k)
 			if err != nil {
@@ -905,12 +918,49 @@ func TestC04RemoteReader(t *testing.T) {
 			trace = append(trace, fmt.Sprintf("iter from %x ok", seek))
 		}
 		nops := rapid.IntRange(1, 10).Draw(t, "nops")
-		for i := 0; i < nops; i++ {
-			switch rapid.IntRange(0, 3).Draw(t, "op") {
+		writeFailed := false
+		for i := 0; i < nops && !writeFailed; i++ {
+			op := rapid.IntRange(0, 5).Draw(t, "op")
+			if op >= 4 && !mayWrite {
+				op -= 4
+			}
+			switch op {
 			case 0, 1:
 				doGet(queryKey(t, uni))
 			case 2:
 				doIter(queryKey(t, uni), rapid.IntRange(0, len(keys)+1).Draw(t, "steps"))
+			case 4:
+				// local insert: a key of the universe, or one that diverges inside a compressed label / extends a key
+				k := queryKey(t, uni)
+				v := []byte(fmt.Sprintf("local-%d", i))
+				if rapid.IntRange(0, 3).Draw(t, "emptyval") == 0 {
+					v = []byte{}
+				}
+				if err := reader.Insert(ctx, k, v); err != nil {
+					// the property allows an error; what a failed write leaves behind is not specified - the case ends here
+					trace = append(trace, fmt.Sprintf("local insert %x -> error (case ends)", k))
+					rec.Label("local-write-error")
+					errs++
+					writeFailed = true
+					break
+				}
+				wrote = true
+				m[string(k)] = v
+				keys = m.SortedKeys()
+				trace = append(trace, fmt.Sprintf("local insert %x (%d bytes)", k, len(v)))
+			case 5:
+				k := queryKey(t, uni)
+				if err := reader.Remove(ctx, k); err != nil {
+					trace = append(trace, fmt.Sprintf("local remove %x -> error (case ends)", k))
+					rec.Label("local-write-error")
+					errs++
+					writeFailed = true
+					break
+				}
+				wrote = true
+				delete(m, string(k))
+				keys = m.SortedKeys()
+				trace = append(trace, fmt.Sprintf("local remove %x", k))
 			default:
 				p := [][]byte{queryKey(t, uni)}
 				err := reader.PrefetchPrefixes(ctx, p, uint16(rapid.IntRange(0, 10).Draw(t, "plimit")))
@@ -921,13 +971,17 @@ func TestC04RemoteReader(t *testing.T) {
 		// exhaust the script, then everything must read correctly from the now honest peer
 		adv.script = nil
 		honestAfter := false
-		if ncap == 0 || ncap >= uint64(len(m)+1) {
+		if wrote {
+			rec.Label("local-writes-on-remote-reader")
+		}
+		if !writeFailed && (ncap == 0 || ncap >= uint64(safe)) {
 			before := errs
 			for _, k := range uni {
 				doGet(k)
 			}
 			doIter([]byte{}, len(keys)+1)
-			if errs != before {
+			// after local writes the tree may refuse to merge a fetched subtree into a modified one (an error, allowed)
+			if errs != before && !wrote {
 				fail("remote-poisoned", "with an honest peer and sufficient cache the reader still fails (%d errors) after earlier corrupt responses", errs-before)
 			}
 			honestAfter = true
@@ -995,5 +1049,64 @@ func TestC04KFRemoteTinyCache(t *testing.T) {
 	rec.Case(true, ev.Fingerprint("probe"), fmt.Sprint(wrong))
 	if len(wrong) > 0 {
 		ev.Violation(t, kv.SigNodeCapBelowPath, "remote reader with node capacity 1-3 and an honest peer returns wrong answers without error: %v", wrong)
+	}
+}
+
+// TestC04KFRemoteLeafEviction: deterministic probe of known finding cache-leaf-evicted-under-dirty-internal as it
+// shows on a remote-backed reader with LOCAL writes: honest peer, unbounded node capacity, a value capacity of 100
+// bytes and prefix-related keys. A local insert makes the internal nodes on its path dirty; value-cache pressure
+// then evicts the clean prefix-key leaf embedded in such a node and the key reads as absent without an error.
+func TestC04KFRemoteLeafEviction(t *testing.T) {
+	rec := ev.New("C04", "TestC04KFRemoteLeafEviction", "deterministic probe of known finding cache-leaf-evicted-under-dirty-internal for a remote-backed reader with local writes (honest peer, value capacity 100, ten prefix-related keys with 60-byte values)", "")
+	defer rec.Flush()
+	m := kv.Model{}
+	for i, k := range []string{"", "\x00", "\x00\x00", "\x00\x01", "\x40", "\x80", "\x80\x00", "\x80\x00\x01", "\xff", "\xff\x7f"} {
+		m[k] = bytes.Repeat([]byte{byte('0' + i)}, 60)
+	}
+	ndb, err := kv.OpenDB("badger", "", true)
+	if err != nil {
+		ev.Infra(t, "open: %v", err)
+	}
+	defer ndb.Close()
+	tree := mkvs.New(nil, ndb, node.RootTypeState)
+	for _, k := range m.SortedKeys() {
+		_ = tree.Insert(ctx, []byte(k), m[k])
+	}
+	_, rh, err := tree.Commit(ctx, kv.Namespace, 1)
+	if err != nil {
+		ev.Infra(t, "commit: %v", err)
+	}
+	tree.Close()
+	root := kv.Root(1, node.RootTypeState, rh)
+	_ = ndb.Finalize([]node.Root{root})
+	srv := mkvs.NewWithRoot(nil, ndb, root)
+	defer srv.Close()
+	var wrong []string
+	base := m.SortedKeys()
+	for _, wk := range base {
+		cur := m.Clone()
+		reader := mkvs.NewWithRoot(srv, nil, root, mkvs.Capacity(0, 100))
+		for _, k := range base { // bring the tree in
+			_, _ = reader.Get(ctx, []byte(k))
+		}
+		nk := wk + "\x01\x02"
+		if err := reader.Insert(ctx, []byte(nk), []byte("local")); err != nil {
+			reader.Close()
+			continue
+		}
+		cur[nk] = []byte("local")
+		for round := 0; round < 2; round++ {
+			for _, k := range cur.SortedKeys() {
+				v, err := reader.Get(ctx, []byte(k))
+				if err == nil && string(v) != string(cur[k]) {
+					wrong = append(wrong, fmt.Sprintf("after local insert %x: Get(%x) returns %d bytes (nil=%v), truth %d bytes", nk, k, len(v), v == nil, len(cur[k])))
+				}
+			}
+		}
+		reader.Close()
+	}
+	rec.Case(true, ev.Fingerprint("probe"), fmt.Sprint(wrong))
+	if len(wrong) > 0 {
+		ev.Violation(t, kv.SigLeafEvictedDirty, "remote reader with local writes, value capacity 100 and an honest peer returns wrong answers without error: %v", wrong[:1])
 	}
 }
